@@ -259,6 +259,15 @@ func compare(m, t side) (*difference, compareStats) {
 		sort.Strings(lt)
 		if len(lm) > 0 || len(lt) > 0 {
 			class := "leaf-differs"
+			if len(lt) == 0 {
+				allEmpty := true
+				for _, x := range lm {
+					allEmpty = allEmpty && strings.HasPrefix(x, "(kind none ")
+				}
+				if allEmpty {
+					class = "empty-kind-test-dropped-from-text"
+				}
+			}
 			if len(lm) == len(lt) {
 				all := true
 				for j := range lm {
